@@ -9,7 +9,7 @@ PID = 'C08'
 SCHEDULE_DEPENDENT = True
 RULE = ('the real fabric with 1-3 subscriber queues; 1-2 client threads publish bursts of 3-12 events (some before the fabric is started, some with a redundant start() in between) with priorities from a '
         'small set (many ties) while a delivery thread is starved by the scheduler so that the fabric queues hold >= 3 items '
-        '(the lag is the injected fault); oracle evaluated at every get of a delivery thread on the real contents of that '
+        '(the lag is the injected fault; with 2-3 publishers one of them may also be stalled in the middle of publish() while the others go on); oracle evaluated at every get of a delivery thread on the real contents of that '
         'fabric queue: no queued event has a smaller priority number than the one taken, and no queued event of equal '
         'priority was published before it (publish call returned before the other publish call began - for overlapping '
         'publish calls of two threads no order is demanded); the same rule is checked again on the order in which the events arrive in each subscriber queue. Non-trivial = a get that saw >= 3 queued items with a priority '
@@ -32,7 +32,7 @@ def generate(seed, stratum, tier):
   for qi in range(nq):
     for s in sigs:
       c0.append(['subscribe', qi, s, rng.choice(['fifo', 'lifo']), 'event'])
-  nclients = rng.choice([1, 1, 2])
+  nclients = rng.choice([1, 2, 2, 3])
   clients = [c0] + [[['sleep', 0.001]] for _ in range(nclients - 1)]
   if rng.random() < 0.25:
     # events published before the fabric is started wait in it too
@@ -49,10 +49,21 @@ def generate(seed, stratum, tier):
         'start': rng.randrange(0, 60), 'len': rng.choice([100, 400, 2000])}
   if rng.random() < 0.25:
     sd = common.draw_sched(rng, grans=('sync', 'line'), expected_steps=400, victims=victims)
-  return {'queues': queues, 'clients': clients, 'signals': sigs, 'sched': sd}
+  sc = {'queues': queues, 'clients': clients, 'signals': sigs, 'sched': sd}
+  if nclients > 1 and rng.random() < 0.6:
+    # a slow publisher: a client is descheduled for a while at a drawn point, possibly in the middle of publish(),
+    # while the others go on publishing (the "stalled node" fault aimed at the publishers)
+    sc['stalls'] = common.draw_stalls(rng, 60 + 40 * sum(len(c) for c in clients), rate=1.0, n=(1, 5), durations=(200, 5000, 100000))
+    sc['stall_roles'] = ['client']
+  return sc
 
 
 def shrink_candidates(sc):
+  if sc.get('stalls'):
+    yield {k: v for k, v in sc.items() if k not in ('stalls', 'stall_roles')}
+    if len(sc['stalls']) > 1:
+      for k in sorted(sc['stalls']):
+        yield dict(sc, stalls={kk: v for kk, v in sc['stalls'].items() if kk != k})
   cl = sc['clients']
   for i, s in enumerate(cl):
     for j in range(len(s) - 1, -1, -1):
